@@ -372,7 +372,7 @@ class Job:
                  expect=(), slices=(), domain="", timeout=300, no_pointer_check=False, defines=(),
                  bound=None, replay=None, functions=(), backend="sat:minisat(default)", unwind=None,
                  cxx_defines=(), note="", canary=True, property_id=None, extra_checks=True,
-                 nondet_static=False, cover_timeout=None):
+                 nondet_static=False, cover_timeout=None, count="all"):
         self.__dict__.update(locals())
         del self.__dict__["self"]
 
@@ -683,9 +683,11 @@ def run_property(pid, tier, jobs, level, trusted_base, assumptions, explanation,
     instr_n = 0
     for r in results:
         j = r["_job"]
-        counted = [o for o in r["obligations"] if o["class"] in ("contract", "safety")]
+        # count="safety": a job borrowed from another property; only its safety-class obligations belong to this one
+        classes = ("safety",) if j.count == "safety" else ("contract", "safety")
+        counted = [o for o in r["obligations"] if o["class"] in classes]
         instr_n += sum(1 for o in r["obligations"] if o["class"] == "instrumentation")
-        fails = [o for o in r["obligations"] if o["status"] == "FAILURE" and o["class"] != "instrumentation"]
+        fails = [o for o in r["obligations"] if o["status"] == "FAILURE" and o["class"] in classes + ("unwind",)]
         ifails = [o for o in r["obligations"] if o["status"] == "FAILURE" and o["class"] == "instrumentation"]
         if ifails and not fails:
             undecided.append((j, "instrumentation self-check failed: %s (%s)" % (ifails[0]["name"], ifails[0]["desc"])))
